@@ -6,3 +6,4 @@ import Helm.Props.C10
 import Helm.Props.C18
 import Helm.Props.C16
 import Helm.Props.C19
+import Helm.Props.C17
